@@ -57,7 +57,7 @@ Pieces2(t, v, i, acc) ==
   ELSE LET f == t.fields[i]
            piece == IF Omitted(f) THEN [present |-> FALSE, b |-> <<>>]
                     ELSE IF IsOpt(f) THEN
-                           (IF v[i].p THEN [present |-> TRUE, b |-> IF f.isbit THEN <<>> ELSE Enc2(f.t, v[i].v, FALSE)]
+                           (IF IsP(v[i]) THEN [present |-> TRUE, b |-> IF f.isbit THEN <<>> ELSE Enc2(f.t, PV(v[i]), FALSE)]
                             ELSE [present |-> FALSE, b |-> <<>>])
                     ELSE LET e == Enc2(f.t, v[i], TRUE) IN [present |-> e # <<>>, b |-> e]
        IN Pieces2(t, v, i + 1, Append(acc, piece))
@@ -105,7 +105,7 @@ DecFields2(t, b, pos, lim, i, block, acc) ==
            on == (blk \div Pow2(i % 8)) % 2 = 1
        IN IF IsOpt(f) THEN
             (IF ~on THEN DecFields2(t, b, p1, lim, i + 1, blk, Append(acc, Absent))
-             ELSE IF f.isbit THEN DecFields2(t, b, p1, lim, i + 1, blk, Append(acc, Pres(Default2(f.t))))
+             ELSE IF f.isbit THEN DecFields2(t, b, p1, lim, i + 1, blk, Append(acc, Pres(<<>>)))
              ELSE LET r == Dec2(f.t, b, p1, lim) IN
                   IF r.ok THEN DecFields2(t, b, r.pos, lim, i + 1, blk, Append(acc, Pres(r.v))) ELSE Err2)
           ELSE
